@@ -16,6 +16,7 @@ COQ_CHECK = "SchedCase.check_case"
 COQ_CASE_TYPE = "SchedCase.case"
 COQ_BRANCHES = ("SchedCase.case_branches", "SchedCase.n_branches")
 SHARD = 150
+CASE_TIMEOUT = 10
 COQ_HEADER = ["From Coq Require Import PrimFloat."]
 MODELLED = [
     "CPython generator semantics (send/close/StopIteration/GeneratorExit, close() returning None on 3.12) as explicit states",
